@@ -31,6 +31,7 @@ EFAC = 1e3  # times the running rounding-error bound of the written formula (cov
 FLOOR = 1e-290  # magnitudes below are 0 (underflow is ignored like in the test-suite)
 CLAUSE_V = "value differs from the written formula"
 CLAUSE_D = "derivative differs from the derivative of the written formula"
+CLAUSE_O = "generated code overflows where the written formula is finite (FloatingPointError here, nan by default)"
 FN = "checks.c11:"
 
 SPECIAL_POINTS = [
@@ -216,6 +217,10 @@ def expr_chunk(case):
                 elif _deriv_fpe(route, exc):
                     rec.skipped += 1
                     rec.outs["symbolic derivative over/underflows at a point (skipped)"] += 1
+                elif isinstance(exc, FloatingPointError) and "overflow" in str(exc):
+                    # e.g. 1/(1+exp(-a)) is simplified to exp(a)/(exp(a)+1): inf/inf at a = 1000
+                    rec.bad(route, shape, CLAUSE_O, _text, f"{exc} at {[_pt(p) for p in plist][-1:]}; the written formula is "
+                            "finite there (all sub-expressions <= 1e8)", replay(route, plist), "expr_chunk")
                 else:
                     rec.bad(route, shape, f"raises {type(exc).__name__}", _text,
                             f"{type(exc).__name__}: {str(exc)[:200]} at {[_pt(p) for p in plist][:2]}",
